@@ -51,7 +51,13 @@ def analyse(recs, nprod, nev):
 def one(job):
     flavour, seed, nprod, nev, yld, engine = job[:6]
     early = job[6] if len(job) > 6 else 0
-    r = thr.run(flavour, 'producers', CHART, timeout=180, producers=nprod, events=nev, seed=seed, early=early, **{'yield': yld, 'engine': engine})
+    block = job[7] if len(job) > 7 else 0
+    kw = {'yield': yld, 'engine': engine}
+    if block:
+        nev = min(nev, 100)
+        # every enqueue dwells at its entry (before the queue's lock is taken): whatever it looked at there is stale by the time it pushes
+        if seed % 4: kw['script'] = 'beq.enqueue.pre@prod:sleep:1500*'     # producer threads only: the stepper stays faster than they are
+    r = thr.run(flavour, 'producers', CHART, timeout=180, producers=nprod, events=nev, seed=seed, early=early, block=block, pace=400 if block else 0, **kw)
     rec = {'job': job, 'bad': [], 'processed': 0, 'sigs': set(), 'tsan': {}, 'tsan_other': {}}
     if r['timeout']:
         rec['bad'].append(('hang', {'stderr': r['err'][-1500:]})); return rec
@@ -61,6 +67,20 @@ def one(job):
     if not any(x[3] == 'DONE' for x in recs):
         rec['bad'].append(('driver-did-not-finish:rc=%s' % r['rc'], {'stderr': r['err'][-2000:]})); return rec
     bad, n = analyse(recs, nprod, nev)
+    if block:
+        # a stepper asleep in step(block): after an event was enqueued (SENT) its next sign of life must come long before the blocking period is over
+        srt = sorted(recs)
+        st_times = [x[1] for x in srt if x[2] == 'stepper']
+        import bisect
+        worst = 0
+        for x in srt:
+            if x[3] == 'SENT':
+                i = bisect.bisect_right(st_times, x[1])
+                nxt = st_times[i] if i < len(st_times) else None
+                if nxt is not None: worst = max(worst, nxt - x[1])
+        rec['worst_wakeup_us'] = worst
+        if worst > block * 1000 * 2 // 3:
+            bad.append(('stepper-not-woken-by-enqueue', {'stepper_silent_for_us_after_an_enqueue': worst, 'blocking_period_ms': block}))
     rec['bad'] = bad; rec['processed'] = n
     rec['sigs'] = thr.signatures(recs, ('SEND',), 6)
     if flavour == 'tsan':
@@ -83,7 +103,7 @@ def main(tier, replay):
     jobs = []
     for i in range(runs):
         nprod = rng.choice([2, 4, 8]); nev = rng.choice([100, 300, 600]) if nprod < 8 else rng.choice([50, 150])
-        jobs.append(('tsan' if i % 4 else 'asan', chk.seed * 10000 + i, nprod, nev, rng.choice([0, 50, 200, 500]), 'large' if i % 3 else 'fast', 1 if i % 5 == 2 else 0))
+        jobs.append(('tsan' if i % 4 else 'asan', chk.seed * 10000 + i, nprod, nev, rng.choice([0, 50, 200, 500]), 'large' if i % 3 else 'fast', 1 if i % 5 == 2 else 0, 3000 if i % 4 == 1 else 0))
     sigs = set(); processed = 0; other = collections.Counter()
     for rec in common.pmap(one, jobs, workers=min(8, common.NPROC)):
         chk.count(); processed += rec['processed']; sigs |= rec['sigs']
@@ -96,7 +116,7 @@ def main(tier, replay):
     chk.add('external_events_processed', processed); chk.add('distinct_interleaving_signatures', len(sigs)); chk.add('tsan_reports_outside_anchored_files', dict(other))
     need = 20 if tier == 'quick' else 500
     if len(sigs) < need: chk.inconc('only %d distinct interleaving signatures observed (< %d)' % (len(sigs), need))
-    chk.rule = ('each run = N in {2,4,8} producer threads x M uniquely named events against one stepping thread mixing step(0)/step(1)/step(5) (in 1 of 5 runs the producers start before the first step()), seeded yields/sleeps at the USCXML_VERIF schedule points; '
+    chk.rule = ('each run = N in {2,4,8} producer threads x M uniquely named events against one stepping thread mixing step(0)/step(1)/step(5), or sleeping in step(3000) (1 of 4 runs: every enqueue must wake it within 2 s) (in 1 of 5 runs the producers start before the first step()), seeded yields/sleeps at the USCXML_VERIF schedule points; '
                 'TSan build (3 of 4 runs) and ASan build; offline checker: every sent event processed exactly once, per-producer order, and per external event the exact internal sequence (micro step, eventless micro step, i.a, i.b, i.c, one stable notice). '
                 'distinct_nontrivial = runs without violation; interleaving signature = hash of the (thread role, site) sequence of the 6 schedule-point hits following a receive()')
     chk.assumptions = ['interleavings are sampled, not enumerated', 'TSan reports are attributed only when a frame lies in the anchored files; others are listed, not judged']
